@@ -1,9 +1,18 @@
 #!/bin/bash
-# usage: mkworktree.sh <dir>  -- scratch git worktree of /repo with a working in-tree build
+# usage: mkworktree.sh <dir>  -- scratch git worktree of /repo with a working in-tree build.
+# /repo's config.status hard-codes ac_pwd='/repo' (and the libtool wrapper scripts of the test programs point at
+# /repo/src/.libs), so the copy is re-pointed at <dir> and rebuilt from clean: otherwise `make check` in the
+# worktree would run the unit tests against /repo's libraries instead of the worktree's.
 set -e
 d="$1"
 git -C /repo worktree add -q --detach "$d" HEAD
 rsync -a --exclude .git /repo/ "$d"/
-cd "$d" && ./config.status >/dev/null 2>&1 && make -j16 >/dev/null 2>&1
+cd "$d"
+sed -i "s#^ac_pwd='/repo'#ac_pwd='$d'#; s#/repo/config/#$d/config/#g" config.status
+./config.status >/dev/null 2>&1
+grep -q "^abs_top_builddir = $d\$" src/Makefile || { echo "config.status did not re-point the build at $d"; exit 1; }
+make clean >/dev/null 2>&1 || true
+make -j16 >/dev/null 2>&1
+if grep -q "/repo/src/.libs" tests/unit/test_uatomic 2>/dev/null; then echo "test wrappers still point at /repo"; exit 1; fi
 git -C "$d" status --short | head -3
 echo "ready: $d"
